@@ -489,13 +489,32 @@ func RunC20(c *Ctx) {
 		CheckC20Text(c, buf, pairs)
 		c.Count("digit_boundary_ranges", int64(len(pairs)))
 	}
-	// every error produced by error workloads
+	// the file path is caller data: hostile paths x error inputs x every entry point, and Position.String()
 	errs := 0
+	if c.Shard == 0 {
+		old := FilePath
+		for _, path := range c20Paths {
+			FilePath = path
+			c.tagEntry = "path=" + strconv.Quote(path) + " "
+			for _, in := range []string{"", "SELECT", "SELECT 1 +", "\n\n  'x", "a\nb\nc )", "/*", "CREATE TABLE t (\n a INT64,\n b )", "DELETE", "1 + * 2; x", "SELECT 1;\nSELECT $"} {
+				for _, e := range allEntriesPlus {
+					errs += c20ErrorCase(c, e, in)
+				}
+			}
+			CheckC20Text(c, "ab\ncd\n\nef", allPairs(9))
+			c.Count("file_paths", 1)
+		}
+		FilePath = old
+		c.tagEntry = ""
+	}
 	errorWorkload(c, c.Pick(30_000, 600_000), func(entry, input string) {
 		errs += c20ErrorCase(c, entry, input)
 	})
 	c.Count("errors_total", int64(errs))
 }
+
+// c20Paths are file paths that a formatting routine could mistake for something else.
+var c20Paths = []string{"", "a.sql", "100%.sql", "%s", "%d:%d", "%!s(int=3)", "%%", "dir/with space/q.sql", "C:\\x\\y.sql", "a:1:1", "q.sql:", "\u65e5\u672c.sql", "a\nb.sql", "\"quoted\".sql", "{0}", "$1", "\\n", "%v%v%v%v", strings.Repeat("p/", 100) + "x.sql"}
 
 // c20ErrorCase runs one (entry, input) case and checks every error it produces.
 func c20ErrorCase(c *Ctx, entry, input string) (errs int) {
